@@ -322,14 +322,14 @@ def r7_source_portability(ctx):
             if not m or ln.lstrip().startswith("//"):
                 continue
             name = m.group(1)
-            attrs = []
+            attrs = [a.strip() for a in re.findall(r"#\[[^\]]*\]", ln[:m.start()])]   # attributes written on the same line
             j = i - 1
-            while j >= 0 and (lines[j].strip().startswith(("#[", "///", "//")) or lines[j].strip() == "" and False):
+            while j >= 0 and (lines[j].strip().startswith(("#[", "///", "//", "pub", "unsafe")) and not re.search(r"\bfn\b|[;{}]\s*$", lines[j])):
                 attrs.append(lines[j].strip())
                 j -= 1
             n += 1
             key = "%s:no_mangle:%s" % (name, sum(1 for a in attrs if a.startswith("#[cfg")) and "cfg-variant" or "def")
-            if any(a.startswith("#[no_mangle") or a.startswith("#[export_name") or a.startswith("#[unsafe(no_mangle") for a in attrs):
+            if any(re.search(r"\bno_mangle\b|\bexport_name\b", a) for a in attrs if a.startswith("#[")):
                 out.append(holds("C18.R7", key, "%s:%d" % (rel, i + 1), "definition carries #[no_mangle]"))
             else:
                 out.append(violated("C18.R7", key, "%s:%d" % (rel, i + 1), "a definition of %s (cfg variant: %s) has no #[no_mangle]: a build that selects it does not export the symbol declared in pathrs.h" % (name, [a for a in attrs if a.startswith("#[cfg")] or "none")))
